@@ -57,9 +57,9 @@ Case wire_case(Rng& r, int param, const Case& keymsg, const char* weights_for) {
     int w;
   };
   static const W c02[] = {{"flip", 26}, {"padbit", 10}, {"chal", 8},  {"chal3", 3},   {"trunc", 8},   {"extend", 8},  {"dupframe", 2}, {"splice", 4}, {"torn", 4},
-                          {"swapmsg", 4}, {"flipmsg", 5}, {"msglen", 2}, {"flippk", 5}, {"misroute", 5}, {"none", 4},    {"dup2", 1},     {"flips", 3}};
+                          {"swapmsg", 4}, {"flipmsg", 5}, {"msglen", 2}, {"flippk", 5}, {"misroute", 5}, {"none", 4},    {"dup2", 1},     {"flips", 3}, {"reroll", 4}, {"zerosig", 1}};
   static const W c05[] = {{"arbitrary", 34}, {"flip", 14}, {"chal", 14}, {"chal3", 2},  {"trunc", 10}, {"extend", 6}, {"torn", 6},   {"splice", 3},
-                          {"padbit", 3},     {"flips", 3}, {"flippk", 2}, {"misroute", 2}, {"none", 1}};
+                          {"padbit", 3},     {"flips", 3}, {"flippk", 2}, {"misroute", 2}, {"none", 1}, {"reroll", 9}, {"zerosig", 3}};
   const W* tab = std::string(weights_for) == "c05" ? c05 : c02;
   size_t n = std::string(weights_for) == "c05" ? sizeof c05 / sizeof *c05 : sizeof c02 / sizeof *c02;
   int tot = 0;
@@ -158,6 +158,11 @@ void gen_c02(Plan& p, bool thorough) {
     Case c = wire_case(ro, prim, km[ro.below(2)], "c02");
     if (ro.chance(1, 3))
       c.set("place", "heap");
+    p.tasks[0].push_back(c);
+  }
+  if (COST[prim] <= 6 || thorough || (p.run / 12) % 4 == 0) {
+    Case c = km[0];
+    c.set("op", "verify").set("surf", (int64_t)r.below(2)).set("node", pick_node(r)).set("wf", "nearmiss").setu("bit", r.next() >> 8).setu("n", r.next() >> 40);
     p.tasks[0].push_back(c);
   }
   // one intact delivery of a signature the library's own signer had no part in
@@ -272,7 +277,7 @@ void gen_c05(Plan& p, bool thorough) {
         c.set("padf", (int64_t)(1 + ro.below(7))).set("padv", (int64_t)(1 + ro.below(127)));
     } else {
       c = km;
-      static const std::vector<std::string> ffs = {"trunc", "prefix", "flip", "extend", "pk", "arbitrary", "none"};
+      static const std::vector<std::string> ffs = {"trunc", "prefix", "flip", "extend", "pk", "arbitrary", "none", "zerowin", "zerowin", "reroll"};
       static const std::vector<std::string> pvs = {"zero", "one", "max", "smlen", "smlen-3", "smlen-4", "wrap", "d"};
       static const std::vector<std::string> ovs = {"disjoint", "disjoint", "same", "plus4", "inside"};
       c.set("op", "nist").set("param", prim).set("sub", "open").set("ff", ro.pick(ffs)).set("pv", ro.pick(pvs)).set("overlap", ro.pick(ovs));
@@ -410,6 +415,15 @@ void gen_c10(Plan& p, bool thorough) {
     c.set("node", (b & 1) ? "sse2" : "avx2");
     p.tasks[0].push_back(c);
   }
+  // the state-recording variant (ZKB++ signer) and the stored inverse matrices (KKW preprocessing) are observable
+  // only through signatures: a wrong recorded state breaks the third share, a wrong inverse the aux bits
+  if (COST[prim] <= 6 || thorough || slice % 4 == 0)
+    for (int i = 0; i < 2; i++) {
+      Rng ro = rng_for(p.seed, {H("C10"), p.run, H("sig"), (uint64_t)i});
+      Case c = sign_case(ro, prim, "c03");
+      c.set("node", i ? "sse2" : "avx2");
+      p.tasks[0].push_back(c);
+    }
   int nrand = thorough ? 400 : 120;
   for (int i = 0; i < nrand; i++) {
     Rng ro = rng_for(p.seed, {H("C10"), p.run, H("op"), (uint64_t)i});
@@ -724,7 +738,7 @@ void gen_c16(Plan& p, bool thorough) {
   if (r.chance(1, 4))
     km.set("mlen", 0);
   static const std::vector<std::string> ovs = {"disjoint", "same", "plus4", "inside"};
-  static const std::vector<std::string> ffs = {"none", "none", "trunc", "prefix", "flip", "extend", "pk", "arbitrary"};
+  static const std::vector<std::string> ffs = {"none", "none", "trunc", "prefix", "flip", "extend", "pk", "arbitrary", "zerowin", "reroll"};
   static const std::vector<std::string> pvs = {"zero", "one", "max", "smlen", "smlen-3", "smlen-4", "wrap", "d", "d", "d"};
   {
     Case c;
@@ -866,9 +880,9 @@ uint64_t default_runs(const std::string& prop, const std::string& tier) {
     const char* p;
     uint64_t q, t;
   };
-  static const R tab[] = {{"C01", 96, 2400},  {"C02", 96, 1200 + 384}, {"C03", 72, 1200}, {"C04", 60, 960},  {"C05", 96, 2400}, {"C06", 96, 1200},
-                          {"C07", 72, 144},   {"C09", 96, 1200},       {"C10", 96, 960},  {"C11", 44, 96},   {"C12", 36, 288},  {"C13", 73, 1201},
-                          {"C14", 240, 600 + 4 * 507}, {"C15", 96, 2400},  {"C16", 72, 960},  {"C17", 13, 37}, {"C18", 72, 60 * 16 + 120}};
+  static const R tab[] = {{"C01", 480, 4800},  {"C02", 600, 2400 + 384}, {"C03", 288, 2400}, {"C04", 120, 960},  {"C05", 480, 4800}, {"C06", 192, 1920},
+                          {"C07", 144, 288},   {"C09", 480, 2400},       {"C10", 480, 1920},  {"C11", 96, 192},   {"C12", 144, 288 + 288},  {"C13", 361, 2401},
+                          {"C14", 480, 600 + 4 * 507}, {"C15", 480, 7200},  {"C16", 288, 1920},  {"C17", 13, 37}, {"C18", 180, 60 * 16 + 240}};
   for (auto& r : tab)
     if (prop == r.p)
       return th ? r.t : r.q;
